@@ -373,6 +373,11 @@ for _p in ("C07", "C14", "C03"):
 PROPS["C06"]["verus"].append({"unit": U1, "fns": ["key_values_filter_pred", "iter_prefix_filter_pred"]})
 PROPS["C12"]["verus"].append({"unit": U4, "fns": ["scheduled_pred"]})
 PROPS["C12"]["level_text"] += " The quarantine predicate (closure body of scheduled_for_deletion_nodes) is proved: a dead member is scheduled iff time of death + half grace < now."
+for _p in ("C05", "C11", "C12"):
+    PROPS[_p]["verus"].append({"unit": U5, "fns": ["Chitchat::report_heartbeats_in_digest"]})
+PROPS["C12"]["verus"].append({"unit": U5, "fns": ["ClusterState::remove_node"]})
+PROPS["C05"]["level_text"] += " Chitchat::report_heartbeats_in_digest (loop over any digest) is proved to leave the local node's own copy - heartbeat included - and the live/dead classification untouched, and not to touch members the digest does not mention."
+PROPS["C12"]["level_text"] += " ClusterState::remove_node is proved to drop the member's state and to remember exactly the heartbeat known at removal."
 U2_CODEC = ["ChitchatId::serialize", "ChitchatId::serialized_len", "Heartbeat::serialize", "Heartbeat::serialized_len", "NodeDigest::serialize",
             "NodeDigest::serialized_len", "alloc::string::String::serialize", "alloc::string::String::serialized_len",
             "DeletionStatusMutation::serialize", "DeletionStatusMutation::serialized_len", "KeyValueMutationRef::serialize",
